@@ -49,6 +49,10 @@ pub struct Workload {
     pub keep: Vec<(u16, u16)>,
     #[serde(default)]
     pub setup_scale: u8,
+    /// when not empty: the sizes of the set-up pass, instead of the round's blocks scaled (positions of
+    /// `keep` then count in this list) - holes whose sizes are unrelated to the round's requests
+    #[serde(default)]
+    pub setup_blocks: Vec<usize>,
 }
 
 const MIB: usize = 1 << 20;
@@ -69,7 +73,8 @@ pub fn setup_total(w: &Workload) -> usize {
         return 0;
     }
     let scale = w.setup_scale.clamp(25, 200) as usize;
-    w.keep.iter().map(|k| k.0.max(1) as usize).sum::<usize>() + w.blocks.iter().map(|b| (b.0 * scale / 100).max(1)).sum::<usize>()
+    let holes: usize = if w.setup_blocks.is_empty() { w.blocks.iter().map(|b| (b.0 * scale / 100).max(1)).sum() } else { w.setup_blocks.iter().map(|b| (*b).max(1)).sum() };
+    w.keep.iter().map(|k| k.0.max(1) as usize).sum::<usize>() + holes
 }
 
 pub fn bound(w: &Workload) -> usize {
@@ -176,12 +181,13 @@ pub fn run_workload(w: &Workload, op_budget: u64) -> Result<RunStats, Failure> {
     let mut kept: Vec<*mut u8> = Vec::new();
     if !w.keep.is_empty() {
         let scale = w.setup_scale.clamp(25, 200) as usize;
-        for j in 0..n {
-            let (size, al) = w.blocks[j];
-            let p = unsafe { a.malloc((size * scale / 100).max(1), 1usize << al.min(13)) };
-            ptrs[j] = p;
+        let setup: Vec<(usize, usize)> = if w.setup_blocks.is_empty() { w.blocks.iter().map(|b| ((b.0 * scale / 100).max(1), 1usize << b.1.min(13))).collect() } else { w.setup_blocks.iter().map(|b| ((*b).max(1), 8usize)).collect() };
+        let m = setup.len();
+        let mut tmp: Vec<*mut u8> = Vec::with_capacity(m);
+        for (j, &(size, al)) in setup.iter().enumerate() {
+            tmp.push(unsafe { a.malloc(size, al) });
             for &(ks, pos) in &w.keep {
-                if pos as usize % n == j {
+                if pos as usize % m == j {
                     let q = unsafe { a.malloc(ks.max(1) as usize, 8) };
                     if !q.is_null() {
                         kept.push(q);
@@ -189,10 +195,18 @@ pub fn run_workload(w: &Workload, op_budget: u64) -> Result<RunStats, Failure> {
                 }
             }
         }
-        for &k in &order {
-            if !ptrs[k].is_null() {
-                unsafe { a.free(ptrs[k]) };
-                ptrs[k] = core::ptr::null_mut();
+        // the pass's own blocks go in the round's free order where that applies, else forward
+        if w.setup_blocks.is_empty() {
+            for &k in &order {
+                if !tmp[k].is_null() {
+                    unsafe { a.free(tmp[k]) };
+                    tmp[k] = core::ptr::null_mut();
+                }
+            }
+        }
+        for p in tmp {
+            if !p.is_null() {
+                unsafe { a.free(p) };
             }
         }
     }
@@ -357,6 +371,7 @@ pub fn check_workload(ctx: &Ctx, w: &Workload) -> CaseResult {
     }
     rep.class_if(w.free_mode >= 2, "shuffled-free-order");
     rep.class_if(!w.keep.is_empty(), "long-lived-blocks-between-holes");
+    rep.class_if(!w.keep.is_empty() && !w.setup_blocks.is_empty() && w.setup_blocks.iter().filter(|b| **b >= (12 << 20)).count() >= 2, "two-or-more-holes-of-12MiB-or-more");
     rep.class_if(!w.keep.is_empty() && w.setup_scale < 100, "holes-smaller-than-the-requests");
     rep.class_if(!w.keep.is_empty() && w.setup_scale > 100, "holes-larger-than-the-requests");
     rep.class_if(!st.full_sensitivity, "low-sensitivity");
@@ -421,12 +436,31 @@ pub fn workload_strategy() -> impl Strategy<Value = Workload> {
                 cur[i] = new;
                 resize.push((k, new));
             }
-            Workload { blocks, early_free, free_seed, free_mode, placement, resize, zeroed, keep, setup_scale }
+            Workload { blocks, early_free, free_seed, free_mode, placement, resize, zeroed, keep, setup_scale, setup_blocks: vec![] }
+        })
+}
+
+/// Holes of 12 MiB and more (the last, unbounded tree bin) kept apart by long-lived blocks, and rounds of
+/// one or two requests of that magnitude; sizes are whole MiB plus or minus a little, so that the keys in
+/// the bin differ in their high bits. Nothing is written to the blocks: the rounds cost mmap/munmap only.
+pub fn huge_strategy() -> impl Strategy<Value = Workload> {
+    let size = || (12usize..=48, prop::sample::select(vec![0isize, -8, -4096, 4096, -60_000, -(64 << 10), 20_000])).prop_map(|(k, d)| ((k << 20) as isize + d) as usize);
+    (
+        prop::collection::vec(size(), 2..=4),
+        prop::collection::vec((size(), Just(0u8)), 1..=2),
+        prop::collection::vec(prop::sample::select(vec![100u16, 20_000, 60_000]), 4),
+        prop_oneof![3 => Just(vec![]), 1 => Just(vec![2u8]), 1 => Just(vec![4u8])],
+        0u8..2,
+    )
+        .prop_map(|(setup_blocks, blocks, ks, placement, free_mode)| {
+            let keep = (0..setup_blocks.len()).map(|j| (ks[j % 4], j as u16)).collect();
+            Workload { blocks, early_free: vec![], free_seed: 0, free_mode, placement, resize: vec![], zeroed: 0, keep, setup_scale: 100, setup_blocks }
         })
 }
 
 pub fn run(ctx: &Ctx) {
     ctx.run_prop_opts("single-thread", ctx.cases(60, 2000), 48, workload_strategy(), |w| check_workload(ctx, w));
+    ctx.run_prop_opts("huge-holes", ctx.cases(60, 1500), 24, huge_strategy(), |w| check_workload(ctx, w));
     ctx.extra("max_ratio_peakheld_to_round_total_plus_1MiB_milli", serde_json::json!(MAX_RATIO_MILLI.with(|m| m.get())));
     crate::galloc_driver::run(ctx);
 }
